@@ -32,6 +32,10 @@ CHECKS = {
    technique="symbolic execution (z3-backed ints/bytes) of ispec.decode on fully symbolic instruction words and tails, per path SMT proof that acceptance and every delivered field equal an independent interpreter of the format string",
    text="Bounded model checking per spec: the path set of ispec.decode over ALL instruction words (and 0-2 tail bytes, both fetch endiannesses, a too-short input) is explored completely; on every path acceptance <=> reference fixed bits, instruction bytes, each int/Bits/bit-string/attribute field, static arguments and precondition roll-back are proven (unsat of the negation). Covers every shipped spec (quick: 1/3) and exhaustive/structured synthetic formats incl. ispec_ia32 macros.",
    note="trusted: z3, symx proxies and injected builtin models (validated by a concolic replay of one model per path through the real decode), vf/refs/specref.py (the independent format interpreter); '#' strings are realized under a cap (capped sites counted)"),
+ "C04": dict(level="model_checking", engine="E2", design="DESIGN.md section 4 C04",
+   technique="symbolic execution (z3-backed bytes) of disassembler.__call__ over the real decision tree with recorder hooks; per path SMT proof that the specs tried equal the mask-matching specs of the flat most-constrained-first list, in its order; concrete structural invariant of every tree node",
+   text="Bounded model checking of the index: for every importable cpu module / decode mode and each listed input length, all paths of the tree walk + leaf scan + prefix recursion over ALL byte strings of that length are explored (caps and deadlines reported); on each path the set and order of candidate specs is proven equal to the reference scan's (reject-all mode) and the winner equal to the first match (accept mode). One model per path is replayed through the real disassembler with the real hooks against a linear ispec.decode scan.",
+   note="trusted: z3, symx + SymDict lookup model, the argument that equal candidate sequences imply equal outcomes (rests on C03); known finding: ARMv7 Thumb with big-endian fetch"),
 }
 
 NA_REASON = "check not built yet (construction in progress)"
